@@ -1284,7 +1284,11 @@ fn tamper_path(world: &World, run: &Run) -> Option<&'static str> {
     // genuine (validly signed) DS RRset of *another* delegation, replayed into the DS response
     // for this zone, passes the "any DS record is Secure" gate; when it holds only unsupported
     // algorithms / digests the zone is declared Insecure.
-    for ex in run.log.iter().filter(|e| e.tampered > 0 && e.qtype == RecordType::DS) {
+    // (attributed only while that finding is still open: once fetch_ds_records compares the
+    // owner, what is left of this shape belongs to the other root causes below)
+    static KC_OPEN: std::sync::OnceLock<bool> = std::sync::OnceLock::new();
+    let kc_open = *KC_OPEN.get_or_init(|| crate::core::known_signatures("C07").iter().any(|k| k == KC));
+    for ex in run.log.iter().filter(|e| kc_open && e.tampered > 0 && e.qtype == RecordType::DS) {
         if ex.delivered.answers.iter().any(|r| r.record_type() == RecordType::DS && r.name.to_lowercase() != ex.qname.to_lowercase()) {
             return Some(KC);
         }
